@@ -171,6 +171,16 @@ def trial(case):
             cnt[0] += 1
             if cnt[0] in change and cur in prio: prio[cur] = -rnd.random()
             return max(cand, key=lambda n: prio[n])
+    elif case.get("policy") == "pause":
+        # one submitter is suspended at a chosen point of its run for a long window while everybody else runs (the shape of most check-then-act races)
+        victim = "sub%d" % rnd.randrange(nsub); at = rnd.randrange(1, 60); window = [rnd.randrange(30, 400)]; seen = [0]
+        def choose(cand, cur):
+            if cur == victim: seen[0] += 1
+            others = [n for n in cand if n != victim]
+            if victim in cand and seen[0] >= at and window[0] > 0 and others:
+                window[0] -= 1; return rnd.choice(others)
+            if victim in cand and seen[0] < at and rnd.random() < 0.7: return victim
+            return rnd.choice(cand)
     else:
         def choose(cand, cur): return rnd.choice(cand)
     SCHED = Sched(choose, names)
